@@ -6,6 +6,7 @@ import Driver.GConfig
 import Driver.GSort
 import Driver.EnvTmpl
 import Driver.Gencommon
+import Driver.Genum
 /-! Line-protocol driver: one request per line on stdin, one answer per line on stdout.
 Core-only so that it links as a native executable. -/
 open Drv
@@ -17,12 +18,14 @@ structure DState where
   gsort : Drv.GSort.St := {}
   tmpl : Drv.EnvTmpl.St := {}
   gcm : Drv.GC.St := {}
+  gn : Drv.Genum.St := {}
 
 def step (st : DState) (line : String) : DState × String :=
   match words line with
   | "bs" :: rest => (st, BitSet.handle rest)
   | "set" :: rest => let r := Drv.Set.handle st.set rest; ({ st with set := r.1 }, r.2)
   | "gc" :: rest => let r := Drv.GConfig.handle st.gc rest; ({ st with gc := r.1 }, r.2)
+  | "gn" :: rest => let r := Drv.Genum.handle st.gn rest; ({ st with gn := r.1 }, r.2)
   | "gcm" :: rest => let r := Drv.GC.handle st.gcm rest; ({ st with gcm := r.1 }, r.2)
   | "tmpl" :: rest => let r := Drv.EnvTmpl.handle st.tmpl rest; ({ st with tmpl := r.1 }, r.2)
   | "gso" :: rest => let r := Drv.GSort.handle st.gsort rest; ({ st with gsort := r.1 }, r.2)
